@@ -9,6 +9,8 @@ mod c05;
 mod c04;
 mod c06;
 mod c08;
+mod c09;
+mod c16;
 
 fn main() {
     let args: Vec<String> = std::env::args().collect();
@@ -31,6 +33,8 @@ fn main() {
         "C04" => c04::main(tier, seed, n),
         "C06" => c06::main(tier, seed, n),
         "C08" => c08::main(tier, seed, n),
+        "C09" => c09::main(tier, seed, n),
+        "C16" => c16::main(tier, seed, n),
         p => { eprintln!("unknown property {}", p); std::process::exit(2); }
     }
 }
